@@ -361,7 +361,7 @@ func parseValues(raw string) []string {
 		return toks[st:i]
 	}
 	for i < len(toks) && toks[i] == "(" {
-		i++ // open pair
+		i++        // open pair
 		readSexp() // key
 		v := readSexp()
 		var val string
